@@ -236,4 +236,55 @@ theorem ctorH_prefix (h : Heap) (f : DFmt) (s : Scale) (val : Part) (val2 : Opti
     · exact allocVal_prefix h _
   · exact List.prefix_refl h
 
+/-! ### The epoch constructors -/
+
+theorem allocVal_freshFrom (h : Heap) (v : Val) :
+    (h.allocVal v).2.1.freshFrom h.length ∧ (h.allocVal v).2.2.freshFrom h.length := by
+  cases v with
+  | scalar j => exact ⟨trivial, trivial⟩
+  | array js => exact ⟨Nat.le_refl _, Nat.le_succ _⟩
+
+/-- **frame condition of the epoch constructors** (no aliasing `_to_jds`): the heap afterwards is the heap before with the
+new buffers appended -/
+theorem ctorTimeH_prefix (split : Rat → Rat → JD) (h : Heap) (s : Scale) (val : Part) (val2 : Option Part) :
+    h <+: (ctorTimeH false split h s val val2).1 := by
+  unfold ctorTimeH
+  split
+  · split
+    · exact List.prefix_refl h
+    · simp only [Bool.false_and]
+      exact allocVal_prefix h _
+  · exact List.prefix_refl h
+
+/-- … and the object's two parts are floats or *new* buffers: none of the buffers that existed -/
+theorem ctorTimeH_fresh (split : Rat → Rat → JD) (h : Heap) (s : Scale) (val : Part) (val2 : Option Part) (o : Obj)
+    (ho : (ctorTimeH false split h s val val2).2 = .ok o) : o.p1.freshFrom h.length ∧ o.p2.freshFrom h.length := by
+  unfold ctorTimeH at ho
+  split at ho
+  · split at ho
+    · simp at ho
+    · simp only [Bool.false_and] at ho
+      rename_i r _
+      simp only [ResH.ok.injEq] at ho
+      subst ho
+      exact allocVal_freshFrom h r
+  · simp at ho
+
+theorem read_write_ne (h : Heap) (a : Nat) (f : List Rat → List Rat) (p : Part) (hp : p.freshFrom (a + 1)) :
+    (h.write a f).read p = h.read p := by
+  cases p with
+  | imm x => rfl
+  | ref b =>
+    have hb : a ≠ b := by simp only [Part.freshFrom] at hp; omega
+    simp [Heap.read, Heap.write, List.getElem?_modify, hb]
+
+/-- a later write into a buffer below `n` does not change an object whose parts are fresh from `n` -/
+theorem readVal_write_fresh (h : Heap) (n a : Nat) (ha : a < n) (f : List Rat → List Rat) (p1 p2 : Part)
+    (h1 : p1.freshFrom n) (h2 : p2.freshFrom n) : (h.write a f).readVal p1 p2 = h.readVal p1 p2 := by
+  have w : ∀ p : Part, p.freshFrom n → p.freshFrom (a + 1) := by
+    intro p hp; cases p with
+    | imm x => trivial
+    | ref b => simp only [Part.freshFrom] at hp ⊢; omega
+  simp only [Heap.readVal, read_write_ne h a f p1 (w p1 h1), read_write_ne h a f p2 (w p2 h2)]
+
 end Midgard.TimeArith
